@@ -102,6 +102,11 @@ pub struct CompSpec {
     /// framework-provided inputs taken by reference (indices into `FRAMEWORK_INPUTS`)
     #[serde(default)]
     pub fw: Vec<u8>,
+    /// generic wrappers taken by reference: (wrapper kind 0 = `GS<T>` singleton, 1 = `GR<T>`
+    /// request-scoped, 2 = `GT<T>` transient; index of the type `T` it is instantiated with). Each
+    /// wrapper kind has ONE generic constructor `fn g<T>(inner: &T) -> G<T>` registered in the root blueprint.
+    #[serde(default)]
+    pub gens: Vec<(u8, usize)>,
 }
 
 /// Values the framework itself injects into any request-time component.
@@ -122,6 +127,10 @@ pub enum Reg {
 
 #[derive(Clone, Debug, PartialEq, Serialize, Deserialize, Default)]
 pub struct AppSpec {
+    /// chaos only: a generic constructor whose input is a deeper instantiation of its own output,
+    /// `fn g_peel<T>(_: &GP<GP<T>>) -> GP<T>`, and the first handler asks for `&GP<T0>`
+    #[serde(default)]
+    pub peel: bool,
     pub types: Vec<TypeSpec>,
     pub n_errs: usize,
     pub comps: Vec<CompSpec>,
